@@ -154,6 +154,43 @@ LinkExpectation(cls, mh, s2, sh) ==
       [] cls = "HetStep" -> <<Term(1, LNZero, "Phi", FDiv(mh, sh))>>
       [] cls = "HetRelu" -> <<Term(mh, LNZero, "Phi", FDiv(mh, sh)), Term(sh, LNZero, "phi", FDiv(mh, sh))>>
 
+(***************************************************************************)
+(* C17, second clause (exp, cosh-1 and rectified-linear links): the value  *)
+(* of integrate_log_conditional_y is a LOWER bound because every           *)
+(* ingredient is an instance of a family of bounds that is valid for EVERY *)
+(* expansion point omega > 0 (axioms: tangent of a concave function;       *)
+(* f(sqrt(.)) concave for f = ln 2cosh(./2), ln cosh - Jaakkola & Jordan): *)
+(*   exp:    ln(1 + e^h)     <= h/2 + F(om) + F'(om)/(2 om) (h^2 - om^2),  *)
+(*                              F(om) = ln 2 + ln cosh(om/2)               *)
+(*   cosh-1: ln cosh h       <= ln cosh om + tanh(om)/(2 om) (h^2 - om^2)  *)
+(*   relu:   ln(1 + h), h>0  <= ln(1 + om) + (h - om)/(1 + om)             *)
+(* HetK is the expectation of the right-hand side under h ~ N(mh, s2) (for *)
+(* relu: over h > 0 only) at a GIVEN rational omega; the code's k_func must*)
+(* equal it for every omega, which makes its own choice of omega           *)
+(* irrelevant for the validity of the bound.                               *)
+(* tanh(u) = 2 sigmoid(2u) - 1.                                            *)
+(***************************************************************************)
+HetK(cls, mh, s2, sh, om) ==
+    LET Eh2 == FAdd(FMul(mh, mh), s2)
+        gap == FSub(Eh2, FMul(om, om))
+    IN
+    CASE cls = "HetExp" ->
+           LET cf == FDiv(gap, FMul(FI(4), om)) IN           \* (1/2) (1/2 tanh(om/2)) / om * gap
+           <<T1(FHalfOf(mh), LNZero), TermM(1, LNZero, "one", 0, LN(0, 0, FI(4))) >> \o           \* h/2 + ln 2 (= 1/2 ln 4)
+           << Term(1, LNZero, "lncosh", FHalfOf(om)),
+              Term(FMul(FI(2), cf), LNZero, "sigmoid", om), T1(FNeg(cf), LNZero) >>
+      [] cls = "HetCosh" ->
+           LET cf == FDiv(gap, FMul(FI(2), om)) IN           \* tanh(om) / (2 om) * gap
+           << Term(1, LNZero, "lncosh", om),
+              Term(FMul(FI(2), cf), LNZero, "sigmoid", FMul(FI(2), om)), T1(FNeg(cf), LNZero) >>
+      [] cls = "HetRelu" ->
+           LET t == FDiv(mh, sh)                              \* P(h > 0) = Phi(mh / sh)
+               Zh == <<Term(1, LNZero, "Phi", t)>>
+               Eh == <<Term(mh, LNZero, "Phi", t), Term(sh, LNZero, "phi", t)>>
+               lnw == LN(0, 0, FMul(FAdd(1, om), FAdd(1, om)))      \* ln(1 + om) = 1/2 ln (1 + om)^2
+               inv == FInv(FAdd(1, om))
+           IN << TermM(1, LNZero, "Phi", t, lnw) >> \o VScaleF(inv, Eh) \o VScaleF(FNeg(FMul(inv, om)), Zh)
+
 HetMeanY(c, p, r) == VAdd(MatVec(c.M[1], Truth(p, r).mu), c.b[1])
 \* sh[i]: exact sqrt(w_i' S w_i) supplied by the menu (0 if not needed)
 HetCovY(c, p, r, sh) ==
@@ -204,6 +241,49 @@ StepIntLogCondY(c, p, r, y, sh) ==
                  \o [k \in 1..Len(h0) |-> TermM(FMul(FQ(-1, 2), h0[k].c), h0[k].ln, h0[k].f, h0[k].t, LNLn(2))]
     IN <<T1(FNeg(FHalfOf(quad0)), LNZero), TermM(FQ(-1, 2), LNZero, "one", 0, LN(0, 2 * HDy(c), FMul(d0, d0)))>>
          \o ValSumTo([i \in 1..HDk(c) |-> unit(i)], HDk(c))
+
+(***************************************************************************)
+(* C17, second clause, rectified-linear link: the heteroscedastic part of  *)
+(* the quadratic term.  With g = a_i' L0 (y - M x - b) and h = w_i'x + w0: *)
+(*   E[ g^2 relu(h) / (1 + relu(h)) ]  >=  E[ g^2 h e^{nu h + lb} ; h > 0 ] *)
+(* for EVERY om > 0, nu = -1/(1+om), lb = -ln(1+om) + om/(1+om)  (tangent  *)
+(* of the convex -ln(1+h)).  The right-hand side is a truncated moment of  *)
+(* the tilted Gaussian N(mh + nu sh^2, sh^2):                              *)
+(*   (v + e0^2) T1 + 2 beta e0 T2 + beta^2 T3,                             *)
+(*   T_k = e^{lb + nu mh + nu^2 sh^2 / 2} int_0^inf h^k N(h; mh + nu sh^2, sh^2) dh *)
+(* (beta, e0, v as for the step link).  HetBase is the homoscedastic part. *)
+(***************************************************************************)
+ReluLBI(c, p, i, y, sh, om) ==
+    LET T == Truth(p, 1)
+        L0 == Inv(HSigma0(c))
+        res == VSub(y, VAdd(MatVec(c.M[1], T.mu), c.b[1]))
+        a == HAk(c, i)
+        La == MatVec(L0, a)
+        cv == VecMat(La, c.M[1])
+        mg == Dot(La, res)
+        w == HW(c, i)
+        mh == FAdd(Dot(w, T.mu), HW0(c, i))
+        vh == FMul(sh[i], sh[i])
+        cov == FNeg(Quad(cv, T.Sig, w))
+        vg == Quad(cv, T.Sig, cv)
+        beta == FDiv(cov, vh)
+        e0 == FSub(mg, FMul(beta, mh))
+        v == FSub(vg, FMul(beta, cov))
+        nu == FNeg(FInv(FAdd(1, om)))
+        mt == FAdd(mh, FMul(nu, vh))                                            \* tilted mean
+        lw == LN(FAdd(FDiv(om, FAdd(1, om)), FAdd(FMul(nu, mh), FHalfOf(FMul(FMul(nu, nu), vh)))), 0,
+                 FInv(FMul(FAdd(1, om), FAdd(1, om))))                              \* lb + nu mh + nu^2 vh / 2
+        al == FDiv(FNeg(mt), sh[i])
+        Tk(k) == TruncMomentVal(k, lw, mt, sh[i], FALSE, al, TRUE, 0)
+    IN VScaleF(FAdd(v, FMul(e0, e0)), Tk(1)) \o VScaleF(FMul(FI(2), FMul(beta, e0)), Tk(2)) \o VScaleF(FMul(beta, beta), Tk(3))
+
+\* homoscedastic ingredients of the bound: E[(y - Mx - b)' L0 (y - Mx - b)] and ln det (A A')
+HetBaseQuad(c, p, y) ==
+    LET T == Truth(p, 1)
+        L0 == Inv(HSigma0(c))
+        res == VSub(y, VAdd(MatVec(c.M[1], T.mu), c.b[1]))
+    IN FAdd(Trace(MatMul(L0, MatMulT(MatMul(c.M[1], T.Sig), c.M[1]))), Quad(res, L0, res))
+HetBaseLnDet(c) == LN(0, 0, FMul(Det(HSigma0(c)), Det(HSigma0(c))))       \* ln det = 1/2 ln det^2
 
 (***************************************************************************)
 (* C17, tightness at zero input weights (exp and cosh-1 links, square A):  *)
